@@ -249,3 +249,172 @@ M("c04-benign-inverted-flag", "C04", "", "operation/step.py",
             )""", """            is_sync: bool = (
                 self.config.step_semantics is not StepSemantics.AT_LEAST_ONCE_PER_RETRY
             )""", expect="silent")
+
+# ----------------------------------------------------------------------------- C11
+M("c11-start-when-started", "C11", "R1.lifecycle", "operation/invoke.py",
+  "        if not checkpointed_result.is_existent():\n            serialized_payload",
+  "        if not checkpointed_result.is_succeeded():\n            serialized_payload")
+M("c11-wfc-uses-step-factory", "C11", "R", "operation/wait_for_condition.py",
+  "            start_operation = OperationUpdate.create_wait_for_condition_start(",
+  "            start_operation = OperationUpdate.create_wait_start(")
+M("c11-child-start-after-body", "C11", "R", "operation/child.py",
+  """        if not checkpointed_result.is_existent():
+            start_operation: OperationUpdate = OperationUpdate.create_context_start(""",
+  """        if False:
+            start_operation: OperationUpdate = OperationUpdate.create_context_start(""")
+M("c11-step-fail-then-succeed", "C11", "R1.lifecycle", "operation/step.py",
+  """        self.state.create_checkpoint(operation_update=fail_operation)
+
+        if isinstance(error, StepInterruptedError):""",
+  """        self.state.create_checkpoint(operation_update=fail_operation)
+        self.state.create_checkpoint(operation_update=fail_operation)
+
+        if isinstance(error, StepInterruptedError):""")
+M("c11-factory-drops-parent", "C11", "R2.kind-and-identity", "lambda_service.py",
+  """        \"\"\"Create an instance of OperationUpdate for type: STEP, action: START.\"\"\"
+        return cls(
+            operation_id=identifier.operation_id,
+            parent_id=identifier.parent_id,
+            operation_type=OperationType.STEP,
+            sub_type=OperationSubType.STEP,""",
+  """        \"\"\"Create an instance of OperationUpdate for type: STEP, action: START.\"\"\"
+        return cls(
+            operation_id=identifier.operation_id,
+            operation_type=OperationType.STEP,
+            sub_type=OperationSubType.STEP,""")
+M("c11-wait-restarts-when-started", "C11", "R1.lifecycle", "operation/wait.py",
+  "        if not checkpointed_result.is_existent():", "        if not checkpointed_result.is_succeeded():")
+
+# ----------------------------------------------------------------------------- C12
+M("c12-attempt-off-by-one", "C12", "R1.attempt-number", "operation/step.py",
+  "        retry_decision: RetryDecision = retry_strategy(error, retry_attempt + 1)",
+  "        retry_decision: RetryDecision = retry_strategy(error, retry_attempt)")
+M("c12-drop-clamp", "C12", "R2.decision-implies-effect", "operation/step.py",
+  "                delay_seconds = 1\n\n            retry_operation", "                pass\n\n            retry_operation")
+M("c12-retry-async", "C12", "R2.decision-implies-effect", "operation/step.py",
+  "            self.state.create_checkpoint(operation_update=retry_operation)\n",
+  "            self.state.create_checkpoint(operation_update=retry_operation, is_sync=False)\n")
+M("c12-pending-runs", "C12", "R3.pending-suspends", "operation/step.py",
+  "        if checkpointed_result.is_pending():\n            scheduled_timestamp", "        if False:\n            scheduled_timestamp")
+M("c12-packaged-no-floor", "C12", "R4.packaged-strategy-shape", "retries.py",
+  "        final_delay: int = max(1, math.ceil(delay_with_jitter))", "        final_delay: int = math.ceil(delay_with_jitter)")
+M("c12-packaged-no-cutoff", "C12", "R4.packaged-strategy-shape", "retries.py",
+  "        if attempts_made >= config.max_attempts:\n            return RetryDecision.no_retry()\n", "")
+M("c12-packaged-no-cap", "C12", "R4.packaged-strategy-shape", "retries.py",
+  """        base_delay: float = min(
+            config.initial_delay_seconds * (config.backoff_rate ** (attempts_made - 1)),
+            config.max_delay_seconds,
+        )""", """        base_delay: float = config.initial_delay_seconds * (config.backoff_rate ** (attempts_made - 1))""")
+M("c12-wait-strategy-no-floor", "C12", "R4.packaged-strategy-shape", "waits.py",
+  "        final_delay: int = max(1, math.ceil(delay_with_jitter))", "        final_delay: int = math.ceil(delay_with_jitter)")
+M("c12-decline-but-suspend", "C12", "R2.decision-implies-effect", "operation/step.py",
+  "        if retry_decision.should_retry:", "        if retry_decision.should_retry or True:")
+M("c12-benign-clamp-with-max", "C12", "", "operation/step.py",
+  "                delay_seconds = 1\n\n            retry_operation", "                delay_seconds = max(1, delay_seconds)\n\n            retry_operation", expect="silent")
+M("c12-benign-cutoff-inverted", "C12", "", "retries.py",
+  "        if attempts_made >= config.max_attempts:\n            return RetryDecision.no_retry()\n",
+  "        if not attempts_made < config.max_attempts:\n            return RetryDecision.no_retry()\n", expect="silent")
+
+# ----------------------------------------------------------------------------- C13
+M("c13-always-initial-state", "C13", "R1.state-threading", "operation/wait_for_condition.py",
+  "        if checkpointed_result.is_started_or_ready() and checkpointed_result.result:",
+  "        if checkpointed_result.is_started() and checkpointed_result.result:")
+M("c13-records-old-state", "C13", "R3.decision-implies-effect", "operation/wait_for_condition.py",
+  """            serialized_state = serialize(
+                serdes=self.config.serdes,
+                value=new_state,""", """            serialized_state = serialize(
+                serdes=self.config.serdes,
+                value=current_state,""")
+M("c13-returns-old-state", "C13", "R3.decision-implies-effect", "operation/wait_for_condition.py",
+  "                return new_state\n", "                return current_state\n")
+M("c13-attempt-not-incremented", "C13", "R2.strategy-arguments", "operation/wait_for_condition.py",
+  "            attempt = checkpointed_result.operation.step_details.attempt + 1",
+  "            attempt = checkpointed_result.operation.step_details.attempt")
+M("c13-drop-clamp", "C13", "R3.decision-implies-effect", "operation/wait_for_condition.py",
+  "                delay_seconds = 1\n\n            retry_operation", "                pass\n\n            retry_operation")
+M("c13-decision-inverted", "C13", "R3.decision-implies-effect", "operation/wait_for_condition.py",
+  "            if not decision.should_continue:", "            if decision.should_continue:")
+M("c13-strategy-sees-old-state", "C13", "R2.strategy-arguments", "operation/wait_for_condition.py",
+  """            decision: WaitForConditionDecision = self.config.wait_strategy(
+                new_state, attempt
+            )""", """            decision: WaitForConditionDecision = self.config.wait_strategy(
+                current_state, attempt
+            )""")
+M("c13-pending-polls", "C13", "R4.pending-suspends", "operation/wait_for_condition.py",
+  "        if checkpointed_result.is_pending():\n            scheduled_timestamp", "        if False:\n            scheduled_timestamp")
+M("c13-benign-rename", "C13", "", "operation/wait_for_condition.py",
+  "                return new_state\n", "                final_state = new_state\n                return final_state\n", expect="silent")
+
+# ----------------------------------------------------------------------------- C14
+M("c14-timed-out-treated-as-pending", "C14", "R2.callback-result", "context.py",
+  """            or checkpointed_result.is_cancelled()
+            or checkpointed_result.is_timed_out()
+            or checkpointed_result.is_stopped()""", """            or checkpointed_result.is_cancelled()
+            or checkpointed_result.is_stopped()""")
+M("c14-result-ignores-serdes", "C14", "R2.callback-result", "context.py",
+  "                serdes=self.serdes if self.serdes is not None else PASS_THROUGH_SERDES,",
+  "                serdes=None,")
+M("c14-create-callback-async", "C14", "R1.create-callback", "operation/callback.py",
+  "        self.state.create_checkpoint(operation_update=create_callback_operation)",
+  "        self.state.create_checkpoint(operation_update=create_callback_operation, is_sync=False)")
+M("c14-invoke-stopped-suspends", "C14", "R3.invoke", "operation/invoke.py",
+  """            or checkpointed_result.is_timed_out()
+            or checkpointed_result.is_stopped()""", """            or checkpointed_result.is_timed_out()""")
+M("c14-invoke-raw-payload", "C14", "R3.invoke", "operation/invoke.py",
+  "                payload=serialized_payload,", "                payload=self.payload,")
+M("c14-invoke-wrong-target", "C14", "R3.invoke", "operation/invoke.py",
+  "                    function_name=self.function_name,", "                    function_name=self.operation_identifier.name,")
+M("c14-wfc-result-before-submit", "C14", "R4.wait-for-callback-composition", "operation/callback.py",
+  """    context.step(
+        func=submitter_step, name=f"{name_with_space}submitter", config=step_config
+    )
+
+    return callback.result()""", """    result = callback.result()
+    context.step(
+        func=submitter_step, name=f"{name_with_space}submitter", config=step_config
+    )
+
+    return result""")
+M("c14-callback-returns-operation-id", "C14", "R1.create-callback", "operation/callback.py",
+  "        return checkpointed_result.operation.callback_details.callback_id", "        return checkpointed_result.operation.operation_id")
+M("c14-result-absent-suspends", "C14", "R2.callback-result", "context.py",
+  """        if not checkpointed_result.is_existent():
+            msg = "Callback operation must exist"
+            raise CallbackError(message=msg, callback_id=self.callback_id)
+""", "")
+
+# ----------------------------------------------------------------------------- C16
+M("c16-generator-on-branches", "C16", "R4.generator-attached-to-batch-context", "concurrency/executor.py",
+  """                sub_type=self.sub_type_iteration,
+            ),""", """                sub_type=self.sub_type_iteration,
+                summary_generator=self.summary_generator,
+            ),""", desc="the repaired defect, re-introduced")
+M("c16-large-records-full-payload", "C16", "R1.summary-not-payload", "operation/child.py",
+  """                serialized_result = (
+                    self.config.summary_generator(raw_result)
+                    if self.config.summary_generator
+                    else ""
+                )""", """                pass""")
+M("c16-large-no-replay-flag", "C16", "R1.summary-not-payload", "operation/child.py",
+  "                replay_children = True\n", "                replay_children = False\n")
+M("c16-limit-changed", "C16", "R1.limit-is-256KiB", "operation/child.py",
+  "CHECKPOINT_SIZE_LIMIT = 256 * 1024", "CHECKPOINT_SIZE_LIMIT = 256 * 1024 * 1024")
+M("c16-replay-children-checkpoints", "C16", "R2.replay-children-cell", "operation/child.py",
+  "            if checkpointed_result.is_replay_children():\n                logger.debug(", "            if False:\n                logger.debug(")
+M("c16-handler-never-replays", "C16", "R3.handler-dispatch", "operation/map.py",
+  "    if checkpoint.is_succeeded():\n        # if we've reached", "    if checkpoint.is_failed():\n        # if we've reached")
+M("c16-replay-failed-as-started", "C16", "R3.replay-mapping", "concurrency/executor.py",
+  "            elif checkpoint.is_failed():\n                error = checkpoint.error\n                status = BatchItemStatus.FAILED",
+  "            elif checkpoint.is_failed():\n                error = checkpoint.error\n                status = BatchItemStatus.STARTED")
+M("c16-wrapper-large-result-in-response", "C16", "R5.wrapper-oversize", "execution.py",
+  """                    return DurableExecutionInvocationOutput.create_succeeded(
+                        result=""
+                    ).to_dict()""", """                    return DurableExecutionInvocationOutput.create_succeeded(
+                        result=serialized_result
+                    ).to_dict()""")
+M("c16-wrapper-limit", "C16", "R5.response-limit", "execution.py",
+  "LAMBDA_RESPONSE_SIZE_LIMIT = 6 * 1024 * 1024 - 50", "LAMBDA_RESPONSE_SIZE_LIMIT = 60 * 1024 * 1024 - 50")
+M("c16-summary-of-wrong-value", "C16", "R1.summary-not-payload", "operation/child.py",
+  "                    self.config.summary_generator(raw_result)", "                    self.config.summary_generator(serialized_result)")
+M("c16-benign-ge-plus-one", "C16", "", "operation/child.py",
+  "            if len(serialized_result) > CHECKPOINT_SIZE_LIMIT:", "            if not len(serialized_result) <= CHECKPOINT_SIZE_LIMIT:", expect="silent")
